@@ -17,12 +17,15 @@ from concurrent.futures import ThreadPoolExecutor
 
 ROOT = os.path.dirname(os.path.dirname(os.path.abspath(__file__)))
 PY = os.path.join(ROOT, '.venv', 'bin', 'python')
+if not os.path.exists(PY):          # a snapshot of the committed files has no virtualenv: use /verif's
+    PY = '/verif/.venv/bin/python'
 ENGINE_WORKER = {'crosshair': 'engine.ch.worker', 'smt': 'engine.smt.worker', 'concrete': 'engine.concrete_worker'}
 
 
 def _env():
     env = dict(os.environ)
-    env['PYTHONPATH'] = ROOT + os.pathsep + env.get('PYTHONPATH', '')
+    repo = env.get('VERIF_REPO', '/repo')
+    env['PYTHONPATH'] = ROOT + os.pathsep + repo + '/src' + os.pathsep + env.get('PYTHONPATH', '')
     env['TALLY_VERIF'] = '1'
     env['PYTHONHASHSEED'] = '0'
     env.setdefault('PYTHONDONTWRITEBYTECODE', '1')
